@@ -43,6 +43,8 @@ func (o Option) Label() string {
 		return strings.Join(p, " ")
 	case "adv":
 		return fmt.Sprintf("adv %d", o.D)
+	case "close", "fclose", "cret":
+		return fmt.Sprintf("%s %d", o.Kind, o.ID)
 	}
 	return o.Kind
 }
@@ -67,15 +69,16 @@ func (s *Sim) Ready(allowSendErr, allowCan, allowDropErr, allowDecodeErr bool) [
 				out = append(out, Option{Kind: "sret", ID: id, Outcome: "can"})
 			}
 		case "retry.wait":
-			if retC || s.ReqC || c.Acked || c.fired() {
+			// released only if one of the cases the source's select really has is ready
+			if s.anyReady(s.Src.LoopSelect, map[string]bool{"<-ctx.Done()": retC, "<-e.reqCtx.Done()": s.ReqC, "<-ackChan": c.Acked, "<-timer.C()": c.fired()}) {
 				out = append(out, Option{Kind: "run", ID: id})
 			}
 		case "do.wait":
-			if c.UserCanc || s.ReqC || c.Done {
+			if s.anyReady(s.Src.DoSelect, map[string]bool{"<-ctx.Done()": c.UserCanc, "<-e.reqCtx.Done()": s.ReqC, "<-done": c.Done}) {
 				out = append(out, Option{Kind: "run", ID: id})
 			}
 		case "do.guard":
-			if c.Done {
+			if s.anyReady(s.Src.GuardWait, map[string]bool{"<-ctx.Done()": c.UserCanc, "<-e.reqCtx.Done()": s.ReqC, "<-done": c.Done}) {
 				out = append(out, Option{Kind: "run", ID: id})
 			}
 		case "drop":
@@ -103,6 +106,17 @@ func (s *Sim) Ready(allowSendErr, allowCan, allowDropErr, allowDecodeErr bool) [
 		}
 	}
 	return out
+}
+
+// anyReady: is one of the select cases present in the source ready? Cases the harness does not
+// know are treated as never ready (the thread is then not released into them).
+func (s *Sim) anyReady(cases []string, ready map[string]bool) bool {
+	for _, c := range cases {
+		if ready[c] {
+			return true
+		}
+	}
+	return false
 }
 
 func (s *Sim) callObs(c *Call) string {
@@ -147,6 +161,52 @@ func (s *Sim) afterNotif(n *Notif) {
 // Apply performs one option and records the trace event. It returns false when the scheduler
 // lost a thread (s.Lost says why).
 func (s *Sim) Apply(o Option) bool {
+	if !s.apply(o) {
+		return false
+	}
+	return s.pollClosers()
+}
+
+// pollClosers observes the return of Close / ForceClose: wg.Wait() must return exactly when every
+// registered Do has returned. While calls are pending a closer must not have returned; as soon as
+// none is pending every closer must return (event `cret k`).
+func (s *Sim) pollClosers() bool {
+	if s.Panicked {
+		return true
+	}
+	pending := false
+	for _, id := range s.order {
+		if !s.calls[id].Finished {
+			pending = true
+		}
+	}
+	for _, cl := range s.closers {
+		if cl.returned {
+			continue
+		}
+		if pending {
+			select {
+			case <-cl.done:
+				cl.returned = true
+				s.viol("C26", "close-returned-early", "Close/ForceClose #%d returned while a Do call was still pending", cl.k)
+			default:
+			}
+			continue
+		}
+		s.Pending = fmt.Sprintf("cret %d", cl.k)
+		select {
+		case <-cl.done:
+			cl.returned = true
+			s.record(s.Pending, "-")
+		case <-s.watchdog():
+			s.Lost = "Close/ForceClose did not return although every call returned"
+			return false
+		}
+	}
+	return true
+}
+
+func (s *Sim) apply(o Option) bool {
 	s.Pending = o.Label()
 	switch o.Kind {
 	case "start":
@@ -225,18 +285,48 @@ func (s *Sim) Apply(o Option) bool {
 		s.afterNotif(n)
 		s.record(o.Label(), s.notifObs(n))
 	case "ack":
-		_, reg, _ := s.Eng.VerifC24Snapshot()
+		_, before, _ := s.Eng.VerifC24Snapshot()
+		panicked := func() (p any) {
+			defer func() { p = recover() }()
+			s.Eng.NotifyAcks(o.IDs)
+			return nil
+		}()
+		if panicked != nil {
+			s.viol("*", "panic", "NotifyAcks(%v) panicked: %v", o.IDs, panicked)
+			s.Panicked = true
+			s.record(o.Label(), "panic")
+			return true
+		}
+		_, after, _ := s.Eng.VerifC24Snapshot()
+		in := func(l []int64, x int64) bool {
+			for _, y := range l {
+				if y == x {
+					return true
+				}
+			}
+			return false
+		}
 		for _, id := range o.IDs {
-			for _, r := range reg {
-				if r == id {
-					if c := s.calls[id]; c != nil {
-						c.Acked = true
-						s.Stats["ack-hit"]++
-					}
+			c := s.calls[id]
+			if c == nil || !in(before, id) {
+				continue
+			}
+			if in(after, id) {
+				// the acknowledgement was received for a pending request but its waiter is still
+				// registered: the ack was lost inside the engine (the request will be re-sent /
+				// treated as unacknowledged at close)
+				s.viol("C25", "ack-lost", "NotifyAcks(%v): request %d was waiting for its acknowledgement and still is", o.IDs, id)
+				s.viol("C26", "ack-lost", "NotifyAcks(%v): request %d was waiting for its acknowledgement and still is", o.IDs, id)
+				continue
+			}
+			if !c.Acked {
+				c.Acked = true
+				s.Stats["ack-hit"]++
+				if len(o.IDs) > 1 {
+					s.Stats["ack-hit-in-batch"]++
 				}
 			}
 		}
-		s.Eng.NotifyAcks(o.IDs)
 		s.record(o.Label(), "-")
 	case "cancel":
 		c := s.calls[o.ID]
@@ -263,7 +353,7 @@ func (s *Sim) Apply(o Option) bool {
 		s.record(o.Label(), "fired="+ids(f))
 	case "close", "fclose":
 		t := &thread{kind: "closer", resume: make(chan string)}
-		done := make(chan struct{})
+		cl := &closer{k: int(o.ID), done: make(chan struct{})}
 		s.cur = t
 		go func() {
 			if o.Kind == "fclose" {
@@ -271,7 +361,7 @@ func (s *Sim) Apply(o Option) bool {
 			} else {
 				s.Eng.Close()
 			}
-			close(done)
+			close(cl.done)
 		}()
 		if !s.wait(t) { // parked at close.wait: cancellation and the closed flag are in effect
 			return false
@@ -281,7 +371,7 @@ func (s *Sim) Apply(o Option) bool {
 			return false
 		}
 		t.resume <- "" // from here the closer only blocks in wg.Wait
-		s.closers = append(s.closers, done)
+		s.closers = append(s.closers, cl)
 		s.Closed = true
 		for _, id := range s.order {
 			if !s.calls[id].Finished {
@@ -309,7 +399,7 @@ func (s *Sim) Drain() bool {
 		return true
 	}
 	if !s.ReqC {
-		if !s.Apply(Option{Kind: "fclose"}) {
+		if !s.Apply(Option{Kind: "fclose", ID: 99}) {
 			return false
 		}
 	}
@@ -332,22 +422,6 @@ func (s *Sim) Drain() bool {
 	for _, n := range s.notifs {
 		if n.th.point != "fin" {
 			s.viol("C24", "not-returned", "notifier %d never returned (parked at %q)", n.NID, n.th.point)
-		}
-	}
-	allFinished := true
-	for _, id := range s.order {
-		allFinished = allFinished && s.calls[id].Finished
-	}
-	for _, d := range s.closers {
-		if !allFinished {
-			break
-		}
-		s.Pending = "(Close/ForceClose returns)"
-		select {
-		case <-d:
-		case <-s.watchdog():
-			s.Lost = "Close/ForceClose did not return although every call returned"
-			return false
 		}
 	}
 	return true
